@@ -5,8 +5,9 @@
 What is read (with `ast` + the regex parser of the standard library, nothing is executed):
 
 * `Scanner.lex`: the order of the character tests (whitespace tuple, "(", ")", regex), the whitespace characters,
-  the parenthesis characters, the identifier regex, that it is applied with `re.match` to `input_[pos:]`
-  (prefix match at the current position), that `pos` advances by `len(value)`, the keyword table
+  the parenthesis characters, the identifier regex, that it is applied with `re.match` to `input_[pos:]` (or a
+  module-level `re.compile(<literal>)` object with `.match(input_[pos:])` / `.match(input_, pos)`: prefix match at the
+  current position), that `pos` advances by `len(value)`, the keyword table
   (`value == "<kw>"` → `TokenType.<KIND>`, first match wins, fallback `IDENT`), and the column offset of the
   `ParseError` (`pos + 1`).
 * `Scanner.reject`: the column offset (`self.current.pos + 1`).
@@ -207,6 +208,22 @@ def _col_offset(E, node, base: str, what: str) -> int:
     raise E(f"{what}: column {ast.unparse(node)!r} is not `{base} + <int>`")
 
 
+def _compiled_pattern(E, mod: ast.Module, name: str):
+    """The literal of a module-level `NAME = re.compile(<literal>)` (exactly one assignment, no flags)."""
+    found = []
+    for n in mod.body:
+        if isinstance(n, ast.Assign) and len(n.targets) == 1 and isinstance(n.targets[0], ast.Name) and n.targets[0].id == name:
+            found.append(n.value)
+        elif isinstance(n, ast.AnnAssign) and isinstance(n.target, ast.Name) and n.target.id == name and n.value is not None:
+            found.append(n.value)
+    if len(found) != 1:
+        raise E(f"lex: {name} is not assigned exactly once at module level")
+    v = found[0]
+    if not (isinstance(v, ast.Call) and ast.unparse(v.func) == "re.compile" and len(v.args) == 1 and not v.keywords):
+        raise E(f"lex: {name} is not `re.compile(<literal>)` without flags")
+    return v.args[0]
+
+
 def lex_facts(E, src_mod: ast.Module):
     sc = _cls(E, src_mod, "Scanner")
     fn = _method(E, sc, "lex")
@@ -257,17 +274,30 @@ def lex_facts(E, src_mod: ast.Module):
     asg, ifm = rest
     call = asg.value
     if not (ast.unparse(asg.targets[0]) == "match" and isinstance(call, ast.Call) and isinstance(call.func, ast.Attribute)
-            and isinstance(call.func.value, ast.Name) and call.func.value.id == "re"):
-        raise E(f"lex: {ast.unparse(asg)!r} is not `match = re.<fn>(…)`")
+            and isinstance(call.func.value, ast.Name)):
+        raise E(f"lex: {ast.unparse(asg)!r} is not `match = re.match(…)` / `match = <compiled>.match(…)`")
     if call.func.attr != "match":
-        raise E(f"lex: the identifier regex is applied with re.{call.func.attr}, not re.match (prefix match at pos)")
-    if call.keywords or len(call.args) != 2:
-        raise E("lex: re.match called with flags / unexpected arguments")
-    pat, subj = call.args
+        raise E(f"lex: the identifier regex is applied with .{call.func.attr}, not .match (prefix match at pos)")
+    if call.keywords:
+        raise E("lex: regex match called with keyword arguments")
+    if call.func.value.id == "re":
+        # re.match(<literal>, input_[pos:])
+        if len(call.args) != 2:
+            raise E("lex: re.match called with flags / unexpected arguments")
+        pat, subj = call.args[0], call.args[1:]
+    else:
+        # <NAME>.match(input_[pos:])  or  <NAME>.match(input_, pos)  with  NAME = re.compile(<literal>)  at module level
+        pat = _compiled_pattern(E, src_mod, call.func.value.id)
+        subj = call.args
     if not (isinstance(pat, ast.Constant) and isinstance(pat.value, str)):
         raise E("lex: identifier pattern is not a string literal")
-    if ast.unparse(subj) != "input_[pos:]":
-        raise E(f"lex: the regex is applied to {ast.unparse(subj)!r}, not to input_[pos:]")
+    subj_src = [ast.unparse(a) for a in subj]
+    if subj_src == ["input_[pos:]"]:
+        pass
+    elif subj_src == ["input_", "pos"] and call.func.value.id != "re":
+        pass    # compiled.match(string, pos): same prefix match at pos (the pattern has no ^ / look-behind: checked by ident_class)
+    else:
+        raise E(f"lex: the regex is applied to {subj_src!r}, not to input_[pos:]")
     extra, word = ident_class(E, pat.value)
     if ast.unparse(ifm.test) != "match":
         raise E("lex: expected `if match:`")
